@@ -8,12 +8,15 @@ package sched
 
 import (
 	"fmt"
+	"os"
 	"runtime"
 	"sync"
 
 	"verif/sim/core"
 	"verif/sim/tape"
 )
+
+var debug = os.Getenv("VERIF_SCHED_DEBUG") != ""
 
 // Abort is the panic value used to unwind the main task when the run is
 // abandoned (deadlock / step cap).
@@ -22,7 +25,7 @@ type Abort struct{ Why string }
 // Task is one simulated task (main or a worker goroutine).
 type Task struct {
 	id      int
-	slot    int // 0 = main; workers: 1..n within their pass
+	slot    int       // 0 = main; workers: 1..n within their pass
 	wake    chan bool // true = abort
 	ready   func() bool
 	site    string
@@ -58,6 +61,7 @@ type S struct {
 	main      *Task
 	announced int
 	arrived   int
+	wg        sync.WaitGroup
 	passSlots int
 	Step      int64
 	StepCap   int64
@@ -135,13 +139,20 @@ func (s *S) Enter() {
 	s.nextID++
 	s.tasks = append(s.tasks, tk)
 	s.arrived++
+	s.wg.Add(1)
 	s.cond.Broadcast()
 	s.mu.Unlock()
 	if abort := <-tk.wake; abort {
 		tk.done = true
+		s.wg.Done() // the deferred Exit hook is not registered yet
 		runtime.Goexit()
 	}
 }
+
+// WaitAll blocks until every worker goroutine has passed its last hook. The
+// harness calls it before the next run installs a new scheduler, so that no
+// goroutine of this run can ever call a hook of the next one.
+func (s *S) WaitAll() { s.wg.Wait() }
 
 // waitArrivals blocks the token holder until every announced child has parked.
 func (s *S) waitArrivals() {
@@ -270,6 +281,9 @@ func (s *S) Yield(site string, ready func() bool) {
 		s.abort("deadlock", self)
 	}
 	s.log.EventInts(site, int64(self.id), int64(pick.id))
+	if debug {
+		fmt.Fprintf(os.Stderr, "step %d: t%d@%s -> t%d | %s\n", s.Step, self.id, site, pick.id, s.Describe())
+	}
 	if pick == self {
 		self.ready = nil
 		return
@@ -324,11 +338,11 @@ func (s *S) release(except *Task) {
 
 // Exit ends the calling worker task and passes the token on.
 func (s *S) Exit() {
-	self := s.cur
-	if self.done || s.Aborted != "" {
-		self.done = true
-		return // aborted: the goroutine is on its way out
+	defer s.wg.Done()
+	if s.Aborted != "" {
+		return // aborted: the goroutine is on its way out (several may run here at once)
 	}
+	self := s.cur
 	self.done = true
 	pick := s.decide(nil)
 	s.log.EventInts("exit", int64(self.id))
@@ -371,6 +385,16 @@ func (s *S) Drain() {
 		}
 		return true
 	})
+}
+
+// WorkersDone reports whether every worker task has exited.
+func (s *S) WorkersDone() bool {
+	for _, tk := range s.tasks {
+		if tk != s.main && !tk.done {
+			return false
+		}
+	}
+	return true
 }
 
 // Describe lists the tasks and where they are parked.
